@@ -11,3 +11,8 @@
 (assert (= (strToLower "violation") "violation"))
 (assert (= (strToLower "warning") "warning"))
 (assert (= (strToLower "info") "info"))
+; the creation time a validation configuration answers (A-CONFIG: the same whenever it is asked during one validation),
+; and time.Time.Format as an uninterpreted function of (instant, layout)
+;; type time.Time
+(declare-fun cfgTime (Any) T_time_Time)
+(declare-fun timeFormat (T_time_Time String) String)
